@@ -1,8 +1,8 @@
 # C15  Tetrahedral kernel: shape invariants, vertex-order contracts, edge collapse   (harness/C15_*.cpp, harness/c15_*.h)
 _C15_UNITS = CORE + ["Mesh/TetrahedralMeshTopologyKernel.cc", "Mesh/TetrahedralMeshIterators.cc",
                      "Unstable/Topology/TetTopology.cc", "Unstable/Topology/TriangleTopology.cc"]
-# bases of harness/c15_common.h (built with the tetrahedral kernel's own add_cell): id -> (nV, nE, nF, nC)
 _C15_UNITS_PROPS = _C15_UNITS + ["FileManager/TypeNames.cc"]   # int properties reference typeName<int>() (needed by the native replay link)
+# bases of harness/c15_common.h (built with the tetrahedral kernel's own add_cell): id -> (nV, nE, nF, nC)
 _T_ONE, _T_FACE, _T_RING, _T_EDGE, _T_VERTEX = range(5)
 _C15_COUNTS = {_T_ONE: (4, 6, 4, 1), _T_FACE: (5, 9, 7, 2), _T_RING: (5, 10, 9, 3), _T_EDGE: (6, 11, 8, 2), _T_VERTEX: (7, 12, 8, 2)}
 _C15_BASES = "bases: 1 tet; 2 tets sharing a face; 3 tets closed around an edge; 2 tets sharing only an edge; 2 tets sharing only a vertex"
